@@ -6,9 +6,11 @@ package main
 import (
 	"bytes"
 	"fmt"
+	"io/fs"
 	"net"
 	"os"
 	"path/filepath"
+	"strings"
 	"time"
 
 	"github.com/cuteLittleDevil/go-jt808/attachment"
@@ -116,5 +118,138 @@ func init() {
 			canary(h.name, i+1)
 		}
 		os.Stdout = so
+	}
+}
+
+func init() {
+	// live-attach-overlap <workdir> <out>: the real attachment server with its default options (the default file handler as
+	// the server itself creates it), several terminals whose sessions overlap in time, plus sessions that fail half way with
+	// a hostile file name.  One event per file found afterwards: {phone of the terminal whose content it holds, path}.
+	cmds["live-attach-overlap"] = func(a []string) {
+		if err := os.Chdir(a[0]); err != nil {
+			die(err)
+		}
+		so := os.Stdout
+		os.Stdout, _ = os.Open(os.DevNull)
+		defer func() { os.Stdout = so }()
+		addr := freePort()
+		g := attachment.New(attachment.WithHostPorts(addr))
+		go g.Run()
+		for i := 0; i < 200; i++ {
+			if c, err := net.DialTimeout("tcp", addr, 50*time.Millisecond); err == nil {
+				c.Close()
+				break
+			}
+			time.Sleep(10 * time.Millisecond)
+		}
+		r := newRand(1921)
+		type sess struct {
+			phone   []byte
+			name    []byte
+			content []byte
+			c       net.Conn
+			ser     int
+		}
+		mk := func(k int, name string) *sess {
+			s := &sess{phone: []byte{0x01, 0x36, 0x00, 0x00, 0x00, byte(k)}, name: []byte(name)}
+			s.content = bytes.Repeat([]byte{byte(0xA0 + k)}, 40+k)
+			c, err := net.Dial("tcp", addr)
+			if err != nil {
+				die(err)
+			}
+			c.SetDeadline(time.Now().Add(8 * time.Second))
+			s.c = c
+			return s
+		}
+		ctl := func(s *sess, id int, body []byte) {
+			s.ser++
+			s.c.Write(buildFrame(hdrSpec{id: id, serial: s.ser, phone: s.phone, body: body}))
+			time.Sleep(3 * time.Millisecond)
+		}
+		announce := func(s *sess) { ctl(s, 0x1210, body1210("JS", r, []aFile{{s.name, s.content}})) }
+		upload := func(s *sess, upto int) {
+			ctl(s, 0x1211, body1211(s.name, 0, len(s.content)))
+			s.c.Write(chunkBytes("JS", s.name, 0, s.content[:upto]))
+			time.Sleep(3 * time.Millisecond)
+		}
+		finish := func(s *sess) {
+			ctl(s, 0x1212, body1211(s.name, 0, len(s.content)))
+			// read the three replies before closing (unread data at close turns the FIN into a reset)
+			buf := make([]byte, 4096)
+			var acc []byte
+			for bytes.Count(acc, []byte{0x7e}) < 6 {
+				n, err := s.c.Read(buf)
+				if err != nil {
+					break
+				}
+				acc = append(acc, buf[:n]...)
+			}
+			s.c.Close()
+			time.Sleep(20 * time.Millisecond)
+		}
+		var all []*sess
+		// 1. A announces, B announces, A uploads and leaves, B uploads and leaves
+		sa, sb := mk(1, "a_file.bin"), mk(2, "b_file.bin")
+		all = append(all, sa, sb)
+		announce(sa)
+		announce(sb)
+		upload(sa, len(sa.content))
+		finish(sa)
+		upload(sb, len(sb.content))
+		finish(sb)
+		// 2. the same file name from two terminals at the same time
+		sc, sd := mk(3, "same.bin"), mk(4, "same.bin")
+		all = append(all, sc, sd)
+		announce(sc)
+		announce(sd)
+		upload(sd, len(sd.content))
+		upload(sc, len(sc.content))
+		finish(sc)
+		finish(sd)
+		// 3. hostile names, partial upload, then the session fails (unsupported command) or the terminal just leaves
+		for k, nm := range []string{"../../evil_part", "../evil_close", "x/../../evil3"} {
+			se := mk(5+k, nm)
+			all = append(all, se)
+			announce(se)
+			upload(se, 7)
+			if k%2 == 0 {
+				ctl(se, 0x0002, nil)
+			}
+			se.c.Close()
+			time.Sleep(30 * time.Millisecond)
+		}
+		time.Sleep(100 * time.Millisecond)
+		out := newND(a[1])
+		defer out.close()
+		root := a[0]
+		// every completed upload is stored under its own terminal's directory, with its own bytes
+		for _, s := range all[:4] {
+			got, err := os.ReadFile(filepath.Join(root, string(asciiDigits(s.phone)), string(s.name)))
+			out.put(map[string]any{"name": B(s.name), "phone": B(asciiDigits(s.phone)), "written": [][]B{}, "uploaded": true,
+				"stored": err == nil && bytes.Equal(got, s.content), "len": len(got)})
+		}
+		filepath.WalkDir(filepath.Dir(filepath.Dir(root)), func(p string, d fs.DirEntry, err error) error {
+			if err != nil || d.IsDir() {
+				return nil
+			}
+			rel, _ := filepath.Rel(root, p)
+			if rel == "file.log" {
+				return nil
+			}
+			data, _ := os.ReadFile(p)
+			owner := B("nobody")
+			var name B
+			for _, s := range all {
+				if len(data) > 0 && bytes.HasPrefix(s.content, data) { // complete or partial content of that terminal
+					owner, name = asciiDigits(s.phone), s.name
+				}
+			}
+			var segs []B
+			for _, x := range strings.Split(rel, string(filepath.Separator)) {
+				segs = append(segs, B(x))
+			}
+			out.put(map[string]any{"name": name, "phone": owner, "written": [][]B{segs}, "uploaded": false, "stored": false, "len": len(data)})
+			return nil
+		})
 	}
 }
